@@ -24,6 +24,20 @@
 //                                             caller saves Rectangle::xBorder/yBorder, sets them to xb/yb and puts the saved
 //                                             values back after the call.  NOTHING else is reset between commands: the statics
 //                                             are whatever earlier calls left.  Prints the borders after the call and the rectangles
+//   D <mode> <ns> (x0 y0 x1 y1 <np> (xoff yoff dirs cost)*np)*ns <nc> (end end)*nc <ncl> (k (x y)*k)*ncl
+//                                             libavoid with the DEFAULT configuration: no setRoutingParameter / setRoutingOption call at all.
+//                                             Every shape carries np connection pins of class 1 (proportional offsets, ConnDirFlags,
+//                                             connection cost, not exclusive); ends and clusters as in C.  Prints like C ("D R k .. D k ..",
+//                                             "DX <what>"), preceded by the fraction of non-zero bytes the Router's storage held before
+//                                             construction ("D nz=<count>/<size> ...", informational token, dropped by the check)
+//   M <pattern> <seed>                        unrelated allocation aimed at the Router object: malloc blocks of sizeof(Router) and nearby sizes,
+//                                             fill them (pattern 0: 0xA5, 1: 0x00, 2: pseudo-random bytes, 3: doubles 100.0, 4: 0xFF, 5: doubles 1e6),
+//                                             free them all
+//   F <fill> [seed]                           from now on every block handed out by the global operator new is pre-filled (0: not at all =
+//                                             the natural heap, 1: 0x00, 2: 0xA5, 3: 0xFF, 4: pseudo-random bytes, 5: doubles 100.0, 6: pseudo-random
+//                                             plausible doubles 0.5 .. 1e6): a
+//                                             deterministic stand-in for "whatever the recycled heap block held before"; the library's own
+//                                             allocations included
 // numbers are decimal strings (dyadic => exact).
 #include <cstddef>
 #include <cfloat>
@@ -41,6 +55,7 @@
 #include <cmath>
 #include <cassert>
 #include <exception>
+#include <new>
 #define private public
 #include "libvpsc/rectangle.h"
 #undef private
@@ -50,6 +65,28 @@
 #include "libvpsc/exceptions.h"
 #include "libavoid/libavoid.h"
 #include "libcola/pseudorandom.h"
+
+static int g_fill = 0;
+static unsigned long g_fs = 88172645463325252UL;
+static void fill_block(void *p, size_t n)
+{
+    unsigned char *b = (unsigned char *) p;
+    switch (g_fill) {
+        case 1: memset(p, 0x00, n); break;
+        case 2: memset(p, 0xA5, n); break;
+        case 3: memset(p, 0xFF, n); break;
+        case 4: for (size_t i = 0; i < n; i++) { g_fs ^= g_fs << 13; g_fs ^= g_fs >> 7; g_fs ^= g_fs << 17; b[i] = (unsigned char) (g_fs >> 24); } break;
+        case 5: { double v = 100.0; for (size_t i = 0; i + 8 <= n; i += 8) memcpy(b + i, &v, 8); } break;
+        case 6: { static const double vs[] = {0.5, 3.0, 100.0, 1e4, -50.0, 1.0, 1e6, 7.25};
+                  for (size_t i = 0; i < n; i++) b[i] = 0x01;
+                  for (size_t i = 0; i + 8 <= n; i += 8) { g_fs ^= g_fs << 13; g_fs ^= g_fs >> 7; g_fs ^= g_fs << 17; memcpy(b + i, &vs[(g_fs >> 20) & 7], 8); } } break;
+        default: break;
+    }
+}
+void *operator new(size_t n) { void *p = malloc(n ? n : 1); if (!p) throw std::bad_alloc(); if (g_fill) fill_block(p, n); return p; }
+void *operator new[](size_t n) { void *p = malloc(n ? n : 1); if (!p) throw std::bad_alloc(); if (g_fill) fill_block(p, n); return p; }
+void operator delete(void *p) noexcept { free(p); }
+void operator delete[](void *p) noexcept { free(p); }
 
 static std::vector<void*> g_kept;
 static unsigned long g_s = 1;
@@ -75,14 +112,21 @@ static void junk(int k, unsigned long seed)
     {
         vpsc::Variables vs; vpsc::Constraints cs;
         int n = 3 + rnd() % 4;
-        for (int i = 0; i < n; i++) vs.push_back(new vpsc::Variable(i, (double)(rnd() % 7), 1));
-        for (int i = 0; i + 1 < n; i++) cs.push_back(new vpsc::Constraint(vs[i], vs[i + 1], 1 + rnd() % 3));
+        bool extreme = rnd() % 2;   // same type, extreme settings: weights 1e-6 .. 1e6, scales, large gaps, equalities
+        for (int i = 0; i < n; i++) vs.push_back(new vpsc::Variable(i, (double)(rnd() % 7) * (extreme ? 1e5 : 1), extreme ? (i % 2 ? 1e6 : 1e-6) : 1, extreme ? 1 + i % 3 : 1));
+        for (int i = 0; i + 1 < n; i++) cs.push_back(new vpsc::Constraint(vs[i], vs[i + 1], (1 + rnd() % 3) * (extreme ? 1e4 : 1), extreme && i % 2));
         try { vpsc::IncSolver s(vs, cs); s.solve(); } catch (...) {}
         for (size_t i = 0; i < cs.size(); i++) delete cs[i];
         for (size_t i = 0; i < vs.size(); i++) delete vs[i];
     }
     {
         Avoid::Router *router = new Avoid::Router(rnd() % 2 ? Avoid::PolyLineRouting : Avoid::OrthogonalRouting);
+        if (rnd() % 2) {
+            // an object of the same type as the one under test, configured with extreme settings: every parameter large, every option on
+            static const double big[9] = {500, 100, 10000, 100000, 1000, 1000, 8, 16, 1000};
+            for (int i = 0; i < 9; i++) router->setRoutingParameter((Avoid::RoutingParameter) i, big[i] + rnd() % 3);
+            for (int i = 0; i < 7; i++) router->setRoutingOption((Avoid::RoutingOption) i, true);
+        }
         Avoid::Rectangle r(Avoid::Point(10, 10), Avoid::Point(20 + rnd() % 5, 20));
         new Avoid::ShapeRef(router, r);
         new Avoid::ConnRef(router, Avoid::ConnEnd(Avoid::Point(0, 15)), Avoid::ConnEnd(Avoid::Point(40, 15 + rnd() % 3)));
@@ -227,6 +271,89 @@ int main()
                 printf("\n");
             }
             if (!exc) delete router;     // after an escaped exception the router's state is undefined: leak it
+        } else if (tag == 'F') {
+            int f; in >> f; unsigned long seed = 0; in >> seed;
+            g_fill = f; if (seed) g_fs = seed;
+            printf("F %d\n", f);
+        } else if (tag == 'M') {
+            int pat; unsigned long seed; in >> pat >> seed;
+            g_s = seed ? seed : 1;
+            std::vector<void*> v;
+            for (int rep = 0; rep < 3; rep++)
+                for (long d = -64; d <= 64; d += 8) {
+                    size_t sz = sizeof(Avoid::Router) + d;
+                    unsigned char *b = (unsigned char *) malloc(sz);
+                    double dv = pat == 3 ? 100.0 : 1e6;
+                    for (size_t i = 0; i < sz; i++) b[i] = pat == 0 ? 0xA5 : pat == 1 ? 0x00 : pat == 2 ? (unsigned char) rnd() : pat == 4 ? 0xFF : 0;
+                    if (pat == 3 || pat == 5) for (size_t i = 0; i + 8 <= sz; i += 8) memcpy(b + i, &dv, 8);
+                    v.push_back(b);
+                }
+            for (size_t i = 0; i < v.size(); i++) free(v[i]);
+            printf("M %zu\n", sizeof(Avoid::Router));
+        } else if (tag == 'D') {
+            int mode, ns, nc, ncl; in >> mode >> ns;
+            std::string what; int exc = 0;
+            Avoid::Router *router = 0;
+            std::vector<Avoid::ConnRef*> conns;
+            size_t nz = 0;
+            try {
+                // the storage operator new hands out for the Router, looked at before the constructor runs
+                void *mem = operator new(sizeof(Avoid::Router));
+                for (size_t i = 0; i < sizeof(Avoid::Router); i++) nz += ((unsigned char *) mem)[i] != 0;
+                router = new (mem) Avoid::Router(mode == 0 ? Avoid::PolyLineRouting : Avoid::OrthogonalRouting);
+                std::vector<Avoid::ShapeRef*> shapes;
+                for (int i = 0; i < ns; i++) {
+                    double a = num(in), b = num(in), c = num(in), d = num(in); int np; in >> np;
+                    Avoid::Rectangle r(Avoid::Point(std::min(a, c), std::min(b, d)), Avoid::Point(std::max(a, c), std::max(b, d)));
+                    Avoid::ShapeRef *sh = new Avoid::ShapeRef(router, r, i + 1);
+                    shapes.push_back(sh);
+                    for (int q = 0; q < np; q++) {
+                        double xo = num(in), yo = num(in); unsigned dirs; in >> dirs; double cost = num(in);
+                        Avoid::ShapeConnectionPin *pin = new Avoid::ShapeConnectionPin(sh, 1, xo, yo, true, 0.0, (Avoid::ConnDirFlags) dirs);
+                        pin->setExclusive(false);
+                        pin->setConnectionCost(cost);
+                    }
+                }
+                in >> nc;
+                for (int i = 0; i < nc; i++) {
+                    Avoid::ConnEnd ends[2];
+                    for (int e = 0; e < 2; e++) {
+                        std::string t; in >> t;
+                        if (t == "P") { double a = num(in), b = num(in); unsigned dirs; in >> dirs; ends[e] = Avoid::ConnEnd(Avoid::Point(a, b), (Avoid::ConnDirFlags) dirs); }
+                        else { int si; in >> si; ends[e] = Avoid::ConnEnd(shapes.at(si), 1); }
+                    }
+                    conns.push_back(new Avoid::ConnRef(router, ends[0], ends[1], 1000 + i));
+                }
+                ncl = 0; in >> ncl;
+                for (int i = 0; i < ncl; i++) {
+                    int k; in >> k;
+                    Avoid::Polygon poly(k);
+                    for (int j = 0; j < k; j++) { double a = num(in), b = num(in); poly.ps[j] = Avoid::Point(a, b); }
+                    new Avoid::ClusterRef(router, poly, 500 + i);
+                }
+                router->processTransaction();
+            }
+            catch (vpsc::CriticalFailure &f) { exc = 1; std::ostringstream o; o << "assert:" << f.file << ":" << f.line << ":" << f.expr; what = o.str(); }
+            catch (std::exception &e) { exc = 1; what = std::string("exception:") + e.what(); }
+            catch (...) { exc = 1; what = "exception:unknown"; }
+            if (exc) {
+                size_t sl = what.rfind('/');
+                if (what.compare(0, 7, "assert:") == 0 && sl != std::string::npos) what = "assert:" + what.substr(sl + 1);
+                for (size_t i = 0; i < what.size(); i++) if (what[i] == ' ') what[i] = '_';
+                printf("DX %s\n", what.c_str());
+            } else {
+                printf("D nz=%zu/%zu", nz, sizeof(Avoid::Router));
+                for (size_t i = 0; i < conns.size(); i++) {
+                    const Avoid::PolyLine &r = conns[i]->route();
+                    printf(" R %zu", r.size());
+                    for (size_t j = 0; j < r.size(); j++) printf(" %a %a", r.ps[j].x, r.ps[j].y);
+                    const Avoid::PolyLine &d = conns[i]->displayRoute();
+                    printf(" D %zu", d.size());
+                    for (size_t j = 0; j < d.size(); j++) printf(" %a %a", d.ps[j].x, d.ps[j].y);
+                }
+                printf("\n");
+            }
+            if (!exc) delete router;
         } else if (tag == 'R') {
             int third, setb, nf, n; in >> third >> setb; double xb = num(in), yb = num(in); in >> nf;
             std::set<unsigned> fixed;
